@@ -11,7 +11,7 @@ pub enum Replay {
     Rng { case: RCase, clause: RClause, sample: usize, observed: String },
     /// a failure that does not reproduce in isolation (the code under test keeps hidden state
     /// across operations): replayed as the whole single-threaded run sequence 0..=upto
-    Sequence { property: String, seed: u64, upto: u64, clause: String, observed: String },
+    Sequence { property: String, seed: u64, upto: u64, tier: String, clause: String, observed: String },
 }
 
 pub struct Meta {
@@ -65,12 +65,12 @@ pub fn write_rng(path: &str, meta: &Meta, case: &RCase, f: &RFailure) -> std::io
     std::fs::write(path, s)
 }
 
-pub fn write_sequence(path: &str, property: &str, seed: u64, upto: u64, profile: &str, clause: &str, observed: &str) -> std::io::Result<()> {
+pub fn write_sequence(path: &str, property: &str, seed: u64, upto: u64, profile: &str, tier: &str, clause: &str, observed: &str) -> std::io::Result<()> {
     let mut s = String::new();
     s.push_str("# simcheck replay v1 — SEQUENCE replay: the failure does not reproduce from its own history alone\n");
     s.push_str("# (the code under test keeps hidden state across operations), so the replay is the whole\n");
     s.push_str("# single-threaded sequence of simulated runs 0..=upto under this seed, in one fresh process.\n");
-    s.push_str(&format!("property {property}\nengine sequence\ntype -\nseed {seed}\nupto {upto}\nprofile {profile}\nclause {clause}\nobserved {observed}\n"));
+    s.push_str(&format!("property {property}\nengine sequence\ntype -\nseed {seed}\nupto {upto}\nprofile {profile}\ntier {tier}\nclause {clause}\nobserved {observed}\n"));
     std::fs::write(path, s)
 }
 
@@ -103,6 +103,7 @@ pub fn read(path: &str) -> Result<Replay, String> {
             property: get("property")?,
             seed: get("seed")?.parse().map_err(|_| "bad seed")?,
             upto: get("upto")?.parse().map_err(|_| "bad upto")?,
+            tier: get("tier").unwrap_or_else(|_| "quick".into()),
             clause: get("clause")?,
             observed: get("observed")?,
         });
